@@ -126,7 +126,12 @@ where
                 Err(_) => 0,
             };
             assert!(addr(s.stats().current_chunk().unwrap().bump_position()) % 8 == 0, "C18: position not aligned after an allocation inside scoped_aligned");
-            (a1, 0)
+            let a2 = match s.allocate(work.l2) {
+                Ok(p) => addr(p.cast()),
+                Err(_) => 0,
+            };
+            assert!(addr(s.stats().current_chunk().unwrap().bump_position()) % 8 == 0, "C18: position not aligned after the second allocation inside scoped_aligned");
+            (a1, a2)
         }),
     }
 }
